@@ -49,6 +49,7 @@ THEOREMS = {
            [("Eav.Props.C16", "Eav.Props.C16.no_abort"), ("Eav.Props.C09", "Eav.Props.C09.copyLabel_take"), ("Eav.Props.C15", "Eav.Props.C15.errcode_lt_max")],
     "C07": _gt("errEnum_eq", "tldTypeEnum_eq") + [("Eav.Props.C07", "Eav.Props.C07." + n) for n in
             ("tldScan_eq_lookup", "isTld_eq_lookup", "whole_label", "case_insensitive", "isTld_eq_csv")] +
+           [("Eav.Props.C07Api", "Eav.Props.C07." + n) for n in ("classified_by_last_label", "class_ignores_prefix", "single_label_not_fqdn", "api_record_any_mask")] +
            [("Eav.Props.C11", "Eav.Props.C11." + n) for n in ("table_eq_gen", "lengths_and_types", "names_lower_alabel", "names_distinct")],
     "C08": _gt("errEnum_eq", "tldTypeEnum_eq", "tldBitEnum_eq", "init_values") + [("Eav.Props.C08", "Eav.Props.C08." + n) for n in
             ("policyArm_eq", "policy_iff", "own_bit_only", "negative_rc_any_mask", "zero_rc_any_mask", "mask_irrelevant_unless_class",
